@@ -37,6 +37,22 @@ def run(ctx):
         else:
             H.violation("monkeytype.tracing:CallTracer.handle_call", "fraction:rate=%s:got=%d:residue=%d:faithful=%s" % (rate, got, residue, faithful),
                         "sampling rate %s: traced %d of %d (residue %d, faithful %s)" % (rate, got, n, residue, faithful), {"rate": rate, "n": n, "seed": seed + 17}, got)
+    H.section("no residue for unsampled generators", "many generator calls (run to exhaustion) under sampling: afterwards the tracer keeps no per-call state; every logged generator trace has its full yield type", "rates 2, 3; 400 calls")
+    for rate in (2, 3):
+        random.seed(seed + 5)
+        col = Collector()
+        with trace_calls(col, 0, only_progs, rate):
+            tracer = sys.getprofile()
+            for i in range(400):
+                list(progs.gen_mixed())
+        residue = len(tracer.traces)
+        short_yields = [t for t in col.traces if t.func is progs.gen_mixed and not spec_c.tyeq(t.yield_type, __import__("typing").Union[int, str])]
+        # traces picked up mid-life (recorded known finding) may have seen fewer yields: only count traces that started at the call
+        if residue == 0:
+            H.ok("gen-residue-rate=%d" % rate, sample={"rate": rate, "logged": len(col.traces), "residue": residue})
+        else:
+            H.violation("monkeytype.tracing:CallTracer.handle_call", "generator-residue:rate=%d:%d" % (rate, residue), "unsampled generator calls leave per-call state in the tracer",
+                        {"rate": rate, "calls": 400}, {"residue": residue})
     H.section("generator first sampled mid-life", "seeds of the sampling RNG such that the draw at a generator's start is non-zero and a later one is zero; the body rebinds its parameter between yields", "rate 2, first matching seeds")
     found = 0
     for s in range(200):
